@@ -160,6 +160,10 @@ Theorem eviction_eligible : forall (eps : Z) (E : env) (cs : list choice) (s s' 
     r ∈ lg /\ a_ok r = true /\ c ∈ a_evicted r /\ t_id c = x /\
     nodes (a_pre r) !! a_node r = Some n /\ (exists i, n_tasks n !! i = Some c) /\
     cand_ok E (a_kind r) (a_pre r) (a_task r) (a_queue r) c = true /\
+    (* the copy the node held was Running, or Bound for preemption - whatever other statuses (Allocated,
+       Binding, Pipelined, Releasing ...) the session contains *)
+    (t_status c = Running \/ (is_reclaim (a_kind r) = false /\ t_status c = Bound)) /\
+    t_preemptable c = true /\
     c ∈ a_cands r /\
     (* E with the capacity plugin's pop order of this vote installed; nothing else differs *)
     let E' := with_qorder E (a_qorder r) in
